@@ -42,6 +42,7 @@ func (p *proxy) url() string { return fmt.Sprintf("opc.tcp://127.0.0.1:%d", p.ln
 func (p *proxy) Dials() int  { return int(atomic.LoadInt64(&p.dials)) }
 
 func (p *proxy) setMode(m string) { p.mu.Lock(); p.mode = m; p.mu.Unlock() }
+func (p *proxy) getMode() string  { p.mu.Lock(); defer p.mu.Unlock(); return p.mode }
 
 func (p *proxy) loop() {
 	for {
